@@ -31,7 +31,7 @@ type bbCleanCase struct {
 func genBBClean(t *rapid.T, forSummary bool) bbCleanCase {
 	c := bbCleanCase{Tests: map[string][]Step{}, Count: rapid.SampledFrom([]int{1, 1, 2, 3}).Draw(t, "count")}
 	ntests := rapid.IntRange(1, 4).Draw(t, "ntests")
-	perm := rapid.Permutation(indices(len(c08Pool))).Draw(t, "tests")
+	perm := rapid.Permutation(vhIndices(len(c08Pool))).Draw(t, "tests")
 	tag := 0
 	var tags []string
 	var tagSteps func(steps []Step) []Step
@@ -105,7 +105,7 @@ func (c bbCleanCase) prepare() (map[string][]string, error) {
 		plain[top] = &Node{Steps: steps}
 	}
 	if _, out, err := runProgram(RunOpts{Pkg: "."}, Scenario{Tests: plain}); err != nil {
-		return nil, fmt.Errorf("recording run: %v (%s)", err, clip(out))
+		return nil, fmt.Errorf("recording run: %v (%s)", err, vhClip(out))
 	}
 	dir := filepath.Join(scnRoot, "__snapshots__")
 	staleIDs := map[string][]string{}
@@ -144,7 +144,7 @@ func checkC07BB(c bbCleanCase) error {
 	}
 	res, out, err := runProgram(RunOpts{Pkg: ".", Run: c.Run, Count: c.Count, Cpu: c.Cpu, Upd: c.Upd, UpdSet: c.Upd != ""}, Scenario{Tests: plain, Clean: CleanSpec{Call: true, Sort: c.Sort}})
 	if err != nil {
-		return fmt.Errorf("run: %v (%s)", err, clip(out))
+		return fmt.Errorf("run: %v (%s)", err, vhClip(out))
 	}
 	for _, cr := range res.Calls {
 		if len(cr.Errors) != 0 || len(cr.Logs) != 0 {
@@ -185,7 +185,7 @@ func checkC07BB(c bbCleanCase) error {
 			continue
 		}
 		if j < 0 {
-			return fmt.Errorf("-count=%d -run=%q UPDATE_SNAPS=%q sort=%v: entry %q was matched in this run but Clean removed it (summary %q)", c.Count, c.Run, c.Upd, c.Sort, s.id, clip(sum.Raw))
+			return fmt.Errorf("-count=%d -run=%q UPDATE_SNAPS=%q sort=%v: entry %q was matched in this run but Clean removed it (summary %q)", c.Count, c.Run, c.Upd, c.Sort, s.id, vhClip(sum.Raw))
 		}
 		if pe[i].Body != qe[j].Body {
 			return fmt.Errorf("entry %q was matched in this run but Clean altered it", s.id)
@@ -250,7 +250,7 @@ func checkC20BB(c bbCleanCase) error {
 	}
 	res, out, err := runProgram(RunOpts{Pkg: ".", Upd: c.Upd, UpdSet: c.Upd != ""}, Scenario{Tests: withSkips(tests, c.Skips), Clean: CleanSpec{Call: true, Sort: c.Sort}})
 	if err != nil {
-		return fmt.Errorf("run: %v (%s)", err, clip(out))
+		return fmt.Errorf("run: %v (%s)", err, vhClip(out))
 	}
 	tally := map[string]int{}
 	for i := range res.Calls {
@@ -273,11 +273,11 @@ func checkC20BB(c bbCleanCase) error {
 	}
 	for _, k := range []string{"passed", "failed", "added", "updated"} {
 		if got[k] != tally[k] {
-			return fmt.Errorf("summary of the process shows %d %s, the tests were signalled %d (tallies %v, summary %q)", got[k], k, tally[k], tally, clip(out))
+			return fmt.Errorf("summary of the process shows %d %s, the tests were signalled %d (tallies %v, summary %q)", got[k], k, tally[k], tally, vhClip(out))
 		}
 	}
 	if got["skipped"] != skips {
-		return fmt.Errorf("summary of the process shows %d skipped, %d snaps.Skip* calls were made (%v); summary %q", got["skipped"], skips, c.Skips, clip(out))
+		return fmt.Errorf("summary of the process shows %d skipped, %d snaps.Skip* calls were made (%v); summary %q", got["skipped"], skips, c.Skips, vhClip(out))
 	}
 	return nil
 }
